@@ -449,6 +449,6 @@ var Assumptions = []string{
 	"put values are non-empty (an empty value is indistinguishable from absence in GetResponse)",
 	"a COMMIT is required to fail only when the request itself names a rolled-back key (the server cannot know about keys it is not shown)",
 	"CHECK_TXN_STATUS is only required not to roll back an unexpired lock; it is never required to roll back an expired one",
-	"a refused multi-key COMMIT/RESOLVE_LOCK may have committed the keys before the failing one (key-by-key application); the model learns this from the lock column and then requires the committed value to be readable",
+	"a refused multi-key RESOLVE_LOCK may have committed the keys before the failing one (key-by-key application); the model learns this from the lock column and then requires the committed value to be readable. A refused COMMIT that committed some of its keys is a C18 violation (the transaction is decided on a key while the client saw a failure); the model still follows the store afterwards",
 	"ART-memtable cases avoid prefix-related user keys (ART orders versioned internal keys of prefix-related user keys differently from the comparator; subject of C07, zero-suffix siblings are known finding C01|wrong-read|art-zero-suffix-sibling)",
 }
